@@ -72,7 +72,7 @@ class LibMap:
             if op in ("==", "!=", "=") and len(args) == 2 and self.is_rev_iter(em, args[1]):
                 return "%s %s %s" % (x, op, em.paren(em.E(args[1])))
             return None
-        if ct0.startswith("struct vf_seq_"):
+        if ct0.startswith("struct vf_seq_") and not ct0.endswith("*"):  # (a smart pointer TO a container is a scalar)
             tag = ct0[len("struct vf_seq_"):]
             if op == "[]":
                 return "(*vf_seq_%s_at(%s, %s))" % (tag, em.addr_of(a0), em.E(args[1]))
@@ -109,7 +109,7 @@ class LibMap:
             em.note_proto("vf_mt19937_next", "unsigned long", ["struct vf_mt19937*"], "std::mt19937::operator()")
             em.callees["vf_mt19937_next"] = "std::mersenne_twister_engine::operator()"
             return "vf_mt19937_next(%s)" % em.addr_of(a0)
-        if ct0.startswith("struct vf_fn"):
+        if ct0.startswith("struct vf_fn") and not ct0.endswith("*"):  # (an iterator over closures is a scalar)
             if op == "()":
                 f = em.paren(em.E(a0))
                 return self.fn_call(em, n, f, args[1:], fnt)
@@ -244,6 +244,10 @@ class LibMap:
             pointee = ct
         if pointee.startswith("struct vf_seq_"):
             return self.seq_call(em, n, pointee[len("struct vf_seq_"):], self.obj_ptr(em, base, arrow), name, args)
+        if pointee == "struct vf_std_mutex" and name in ("lock", "unlock") and not args:
+            # std::mutex of the host program (real threads are outside the sequential model, DESIGN 1): no-op, reported
+            em.dropped.append("std::mutex::" + name)
+            return "((void)0)"
         if pointee.startswith("struct vf_arr_"):
             # std::array<T,N> -> struct vf_arr_T_N { T a[N]; }
             o = "%s->a" % em.paren(self.obj_ptr(em, base, arrow))
@@ -305,6 +309,16 @@ class LibMap:
             em.note_proto(cn, em.ctype(n), pcs, "std::string::%s" % name)
             em.callees[cn] = "std::string::%s" % name
             return "%s(%s)" % (cn, ", ".join(avs))
+        # it->get() / it->operator bool() where `it` points to a smart pointer OBJECT (container iterator, T**)
+        if arrow and ct.endswith("**") and name in ("get", "operator bool") and not args:
+            try:
+                pt = strip_ref(em.tm.resolve(bt))
+                inner_t = strip_ref(em.tm.resolve(pt.to)) if pt.kind == "ptr" else None
+            except Unsupported:
+                inner_t = None
+            if inner_t is not None and inner_t.kind == "named" and inner_t.last in SMART_PTRS:
+                o = "(*%s)" % em.paren(em.E(base))
+                return o if name == "get" else "(%s != 0)" % o
         # smart pointers / atomics on a non-arrow base whose mapped type is scalar
         if not arrow and is_scalar(ct):
             o = em.E(base)
@@ -362,6 +376,12 @@ class LibMap:
             if len(args) != 1:
                 return None
             base = "push_back" if "back" in name else "push_front"
+            src = skip(args[0])
+            while src.get("kind") in ("CXXConstructExpr", "CXXFunctionalCastExpr") and len(src.get("inner", [])) == 1:
+                src = skip(src["inner"][0])
+            if tag == "vf_fn" and src.get("kind") == "LambdaExpr":
+                # closure stored in a container of std::function: its captures must outlive the block (heap copy)
+                return "%s%s(%s, %s)" % (f, base, p, em.lift_lambda(src, heap=True))
             return "%s%s(%s, %s)" % (f, base, p, em.E(args[0]))
         if name in ("pop_front", "pop_back", "clear"):
             return "%s%s(%s)" % (f, name, p)
